@@ -1,8 +1,8 @@
 """C10 - shape casting and constant normalisation are exact and minimal.
 
 Ties Model/ShapeCast.lean (and ceilLog2/bitsFor of Model/Shape.lean) to the working tree of /repo:
-every case is run on the real code (Shape.cast, Const, Const.cast, Signal(init=), MemoryData(init=),
-bits_for, ceil_log2) and sent to the native driver `amodel_c10`, which answers with the Model value
+every case is run on the real code (Shape.cast, Const, Const.cast, Signal(init=), MemoryData(init=) and
+assignments to `.init` afterwards, enumeration class hierarchies, layout constants, bits_for, ceil_log2) and sent to the native driver `amodel_c10`, which answers with the Model value
 and an independently computed Spec value (brute-force narrowest shape over the enumerated elements,
 `constOf`, `denote`). impl != spec -> VIOLATION; impl == spec everywhere but impl != model -> not shown.
 """
@@ -732,7 +732,7 @@ def run_mem_assign(chk, quick, eshapes):
     from amaranth.lib.memory import Memory
     from amaranth.sim import Simulator
     rng = chk.rng
-    ncase = 1200 if quick else 30000
+    ncase = 2000 if quick else 30000
     sec_op = Section(chk, "memory-assign")
     sec_fin = Section(chk, "memory-assign-rows")
     finished = []
@@ -903,7 +903,7 @@ def run_enum_hier(chk, quick):
     rng = chk.rng
     kinds = {"Enum": enum.Enum, "IntEnum": enum.IntEnum, "amaranth.Enum": aenum.Enum, "amaranth.IntEnum": aenum.IntEnum}
     patterns = ("base-first", "derived-first", "base-never", "random")
-    ncase = 480 if quick else 20000
+    ncase = 480 if quick else 8000
     sec = Section(chk, "enum-hier")
     secm = Section(chk, "enum-hier-member")
     secv = Section(chk, "enum-hier-member-value")
@@ -998,7 +998,7 @@ def run_layouts(chk, quick, eshapes):
     from amaranth.lib import data
     import types
     rng = chk.rng
-    ncase = 1500 if quick else 40000
+    ncase = 2500 if quick else 40000
     reqs, pend = [], []
     for ci in range(ncase):
         lk = rng.choice(("struct", "struct", "struct", "array", "array", "union", "structcls"))
@@ -1190,12 +1190,18 @@ def run(chk):
     run_layouts(chk, quick, eshapes)
     chk.cov["rule"] = ("small domains enumerated completely (see coverage.exhaustive), large values sampled around powers of two "
                        "from the seeded PRNG; a case is distinct by its driver request, non-trivial unless it is an empty enum, "
-                       "a bare Const tree or an absent initial value")
+                       "a bare Const tree or an absent initial value; memory rows assigned after construction, enumeration "
+                       "hierarchies with varied cast order and layout constants are random streams described abstractly "
+                       "(integers only) and distinct by (case, step)")
     chk.assumptions += [
         "enumerations are integer-valued (the model takes the list of distinct member values in definition order; "
         "aliases are not members)",
         "a Concat of n parts is encoded as the right-nested binary cat chain of Model/Expr.lean (validated by this correspondence)",
         "range-shaped signals are given integer (or no) initial values; Signal(range(..), init=Const(..)) raises TypeError "
         "from `orig_init not in orig_shape` and is outside the documented inputs (int or enum member)",
-        "ShapeCastable shapes (data layouts, shaped enums) are covered by C15, not here",
+        "ShapeCastable shapes are covered by C15, except that layout-shaped constants / signal initial values over fields of "
+        "plain shape (unsigned, signed, int, plain enum) are checked here field by field: the driver gives each field's "
+        "wrapped value, the harness places it at the field offset computed from the widths in the abstract description",
+        "a memory row nothing was stored in holds 0 (also in a range-shaped memory whose range does not contain 0), "
+        "as MemoryData.Init and the model's memInit do",
     ]
